@@ -49,7 +49,7 @@ ASSUMPTIONS = [
 ]
 REQUIRED_CLASSES = {
     "all": ["structure=free", "structure=adjoint_pair", "structure=hermitian_square", "structure=sandwich",
-            "structure=recurrence", "recurrence-lazy-zeroth-order", "hermitian_flag", "identity-in-hermitian-product", "mode=scalar", "mode=complex", "mode=object", "n_inf=3", "factors=4", "predeclared"]
+            "structure=recurrence", "recurrence-lazy-zeroth-order", "hermitian_flag", "identity-in-hermitian-product", "mode=scalar", "mode=complex", "mode=object", "tiny-and-huge-blocks", "n_inf=3", "factors=4", "predeclared"]
 }
 
 
@@ -131,6 +131,7 @@ def _case(draw, tier):
         "c": draw(st.sampled_from([1, -1, 2, -2])),
         "requests": requests,
         "ask_on": draw(st.sampled_from(["product", "both"])),
+        "tiny": draw(st.integers(0, 4)) == 0,
     }
 
 
@@ -177,6 +178,10 @@ class Factors:
             return None if val == 0 else val
         if not arr.any():
             return None
+        if c.get("tiny") and c["mode"] in ("real", "complex") and c["structure"] != "recurrence":
+            # physical units: the blocks of every second series are of order 1e-9, the others of order 1e9 (exact
+            # powers of two, so the reference stays exact).  A small block is not an absent block.
+            arr = arr * (2.0**-30 if tag % 2 == 0 else 2.0**30)
         if c["mode"] == "object":
             # object-dtype blocks holding Python complex numbers (what exact or extended-precision element types look
             # like to numpy: `np.isrealobj` is True for them although the entries are not real)
@@ -318,6 +323,10 @@ def check_case(case, enforce_all=False):
     scalar = case["mode"] == "scalar"
     structure = case["structure"]
     out.labels += [f"structure={structure}", f"mode={case['mode']}", f"n_inf={n_inf}", f"factors={k}"]
+    if case.get("tiny") and case["mode"] in ("real", "complex") and structure != "recurrence":
+        # (not for the recurrence: S = A + c S.S adds terms of different powers of the scale, which would make the
+        # floating-point reference inexact)
+        out.labels.append("tiny-and-huge-blocks")
     if case["hermitian_flag"]:
         out.labels.append("hermitian_flag")
     log = []  # (t, idx) in evaluation order
